@@ -888,6 +888,21 @@ func init() {
 	}, Ref: func(a []c13V) (c13V, c13St) { return c13VS("c:" + a[0].S), ok }})
 	c13Reg(&c13Fn{Name: "hCtxSub", Ctx: true, Params: []string{"int", "int"}, Go: func(c *vuego.VueContext, a, b int) int { return a - b },
 		Ref: func(a []c13V) (c13V, c13St) { return c13VI(a[0].I - a[1].I), ok }})
+	// functions whose parameter is a struct / a pointer to a struct: the value must arrive as it is, in every position
+	c13Reg(&c13Fn{Name: "hItemTitle", Params: []string{"any"}, Go: func(it Item) string { return "<" + it.Title + ">" },
+		Ref: func(a []c13V) (c13V, c13St) {
+			if a[0].T != "comp" || a[0].TV.K != "Item" {
+				return a[0], c13Und("struct-parameter-with-other-argument")
+			}
+			return c13VS("<" + a[0].TV.M["title"].S + ">"), ok
+		}})
+	c13Reg(&c13Fn{Name: "hPItemCount", Params: []string{"any"}, Go: func(it *Item) int { return it.Count * 10 },
+		Ref: func(a []c13V) (c13V, c13St) {
+			if a[0].T != "comp" || a[0].TV.K != "*Item" {
+				return a[0], c13Und("struct-parameter-with-other-argument")
+			}
+			return c13VI(a[0].TV.M["count"].I * 10), ok
+		}})
 	c13Reg(&c13Fn{Name: "hCtxJoin", Ctx: true, Variadic: "string", Go: func(c *vuego.VueContext, p ...string) string { return "c:" + strings.Join(p, "~") },
 		Ref: func(a []c13V) (c13V, c13St) { return c13VS("c:" + c13JoinV(a, "~")), ok }})
 	c13Reg(&c13Fn{Name: "hCtxSum", Ctx: true, Params: []string{"int"}, Variadic: "int", Go: func(c *vuego.VueContext, first int, rest ...int) int {
